@@ -10,8 +10,10 @@ Next == FALSE /\ UNCHANGED tid
 Evs == T.events
 Stateless == \A i \in DOMAIN Evs : Evs[i].out = Evs[i].fresh
 FirstBad == IF Stateless THEN 0 ELSE CHOOSE i \in DOMAIN Evs : Evs[i].out # Evs[i].fresh /\ \A j \in DOMAIN Evs : Evs[j].out # Evs[j].fresh => i <= j
+\* a result that was handed out does not change when the same instance is used again
+Stable == \A i \in DOMAIN Evs : Evs[i].later = Evs[i].out
 ScratchPristine == \A i \in DOMAIN Evs : Evs[i].pre = Evs[i].freshpre
 SeedFree == \A i, j \in DOMAIN T.seedruns : T.seedruns[i].digest = T.seedruns[j].digest
-Report == PrintT(ToJson([id |-> T.id, failed |-> {n \in {"Stateless", "SeedFree"} : IF n = "Stateless" THEN ~Stateless ELSE ~SeedFree},
+Report == PrintT(ToJson([id |-> T.id, failed |-> {n \in {"Stateless", "SeedFree", "Stable"} : CASE n = "Stateless" -> ~Stateless [] n = "SeedFree" -> ~SeedFree [] OTHER -> ~Stable},
                           at |-> FirstBad, pristine |-> ScratchPristine]))
 ====
